@@ -134,3 +134,30 @@ void fx6_move_nested_gap(uint16_t *dest, const uint16_t *src, uint32_t len) {   
 int fx6_sym_good(char *dest, unsigned long dmax, const char *src, unsigned long srcbos) { FX_SYM(n++, srcbos) }
 int fx6_sym_dropped_limit(char *dest, unsigned long dmax, const char *src, unsigned long srcbos) { FX_SYM((void)0, srcbos) }
 int fx6_sym_dropped_budget(char *dest, unsigned long dmax, const char *src, unsigned long slen) { FX_SYM((void)0, slen) }
+
+/* a slack clearing never starts at an element that holds result data */
+extern void *memset(void *, int, unsigned long);
+int fx6_ccpy_good(char *dest, unsigned long dmax, const char *src, int c, unsigned long n) {
+    while (dmax > 0 && n > 0) {
+        *dest = *src;
+        if (*dest == (char)c) { if (n > 1) memset(dest + 1, 0, n - 1); return 0; }
+        dmax--; n--; dest++; src++;
+    }
+    return 406;
+}
+int fx6_ccpy_wipes(char *dest, unsigned long dmax, const char *src, int c, unsigned long n) {
+    while (dmax > 0 && n > 0) {
+        *dest = *src;
+        if (*dest == (char)c) { memset(dest, 0, n); return 0; }          /* starts at the stop character just copied */
+        dmax--; n--; dest++; src++;
+    }
+    return 406;
+}
+int fx6_str_term_good(char *dest, unsigned long dmax, const char *src) {
+    while (dmax > 0) {
+        *dest = *src;
+        if (*dest == 0) { memset(dest, 0, dmax); return 0; }                /* the element is the terminator: part of the cleared range */
+        dmax--; dest++; src++;
+    }
+    return 406;
+}
